@@ -11,6 +11,9 @@ def check(ctx):
             check_segmentation(A, R, rules=("R1", "R3", "R2"), prefix=tr)
             check_overlap(A, R, prefix=tr)
             check_constants(A, R)
+            if name != "new_ltf_plan":
+                # log spacing is observed through the stored f, r, L: the walk must step with the resolution of the stored length
+                check_grid(A, R, rules=("R1", "R2"), prefix=tr)
             if name != "vectorized_ltf_plan":
                 collect_compromise(R, tr, found)
         for_paths(ctx, ctx.repo, name, per_path)
@@ -19,6 +22,7 @@ def check(ctx):
     from ..dispatch import check_window_config
     check_window_config(ctx, rule="R5-requested-overlap-used")
     check_rounding_helper(ctx, ctx.repo)
+    check_lpsd_wrapper(ctx, ctx.repo)          # LPSD spacing = LTF spacing with bmin=1, Lmin=1 forced
     check_jdes_search(ctx, ctx.repo)
     _force_wiring(ctx)
     ctx.trust("L4 pigeonhole cap", "L5 mean step of evenly spread starts", "rounding classes of Appendix A.4")
